@@ -444,11 +444,13 @@ func judge(c *vk.Ctx, sh *shared, n *node, firstNew int) (v verdict) {
 			c.Count("executions", 1)
 			kind := [...]string{"validating", "non-validating"}[vi]
 			if err != nil {
-				cls := "non-member"
 				if m.perm[name] != None {
-					cls = "member"
+					viol("view-build-fails:member:"+kind, "%s (%s) cannot build its %s view from the raw log: %v", name, PermName(m.perm[name]), kind, err)
+				} else {
+					// the property says nothing about what an account without permission can build: noted, not judged
+					c.Count("non_member_view_build_failures", 1)
+					c.Note("%s: %s (no permission) cannot build its %s view: %v", where, name, kind, err)
 				}
-				viol("view-build-fails:"+cls+":"+kind, "%s (%s) cannot build its %s view from the raw log: %v", name, PermName(m.perm[name]), kind, err)
 				continue
 			}
 			if vi == 0 {
@@ -848,19 +850,23 @@ func TestCheck(t *testing.T) {
 	vk.Main(t, vk.Spec{
 		Prop:  "C05",
 		Level: "model_checking",
-		Rule: "explicit-state BFS over membership histories of a shareable space, every operation built by the acting account's own real record builder over its own validating view of the raw log (real keys, real ciphertexts): " +
-			"invite (request / open), join request, approve, join by open invite, direct add, remove with rotation, leave request, invite revoke with rotation (batch), plain revoke, stand-alone rotation, re-add and re-join of removed accounts; both managers act; " +
-			"after EVERY accepted record all 5 accounts' private views (validating and client-style non-validating) are rebuilt from the raw log alone and compared with a reference computed from the decoded raw records only (membership, generations, attacker closure over every encrypted-read-key blob and the backward key chain); " +
-			"hand-signed rotations with wrong recipient sets are offered in every expanded state; real encrypted object trees are written and re-read under every key generation along scripted histories and every BFS path up to the tree depth; " +
-			"states = distinct (abstract ACL state + generations since each non-member's loss + invite slot status); transitions = accepted operations; distinct_nontrivial = distinct (abstract state, account, status class)",
+		Rule: "explicit-state BFS over membership histories of a shareable space; every operation is built by the acting account's own real record builder over its own validating view of the raw log (real keys, real ciphertexts) and submitted to a validating non-member observer: " +
+			"invite (request / open), join request, approve, join by open invite, direct add, remove with rotation, leave request (+ removal), invite revoke with rotation (one batch record), plain revoke, stand-alone rotation, re-add / re-join of removed accounts (thorough: also permission changes); owner and admin both act. " +
+			"BFS from 3 seed states (root with the owner only; team O+A+P+Q; rich: + open invite used by X, P removed under a 2nd generation, request invite with P's pending request) to the per-seed depth, plus 2 scripted 13/17-step histories covering every kind; level-synchronous, deterministic dedup. " +
+			"After EVERY accepted record all 5 accounts' private views (validating and client-style non-validating / keep-only-ours decode) are rebuilt from the raw log alone and compared with a reference computed from the hand-decoded raw records only (membership, generations, last loss of permission, attacker closure over every encrypted-read-key blob and the backward EncryptedOldReadKey chain); every AclReadKeyChange of the new record is compared with the exact member / live-open-invite sets after it; " +
+			"in every expanded state hand-signed rotations with real ciphertexts but wrong recipient sets (member swapped for non-member, member omitted, extra non-member, removed account still addressed, live invite replaced / omitted, revoked invite still addressed) are offered and must be rejected; " +
+			"real encrypted object trees (authors rotate among owner / admin / writers; every 4th change a snapshot) are written and re-read by every account over its own ACL view after every step of the scripted and seed histories (writer on a real any-store database incl. a scan of the database files, plus a long-lived owner replica whose list and tree persist across all ACL changes) and on every BFS path up to the tree depth (in-memory storage); ChangeBuilder.Build is enumerated over 24 payload shapes. " +
+			"states = distinct (abstract ACL state + generations since each non-member's loss + invite slot status); transitions = accepted operations; distinct_nontrivial = distinct (abstract state, account, status class, #generations kept / forbidden / judged against invite keys)",
 		Assumptions: []string{
-			"pool of 5 accounts (owner O, admin A, members P and Q, outsider X), at most 2 invites per history; builder timestamps, keys and nonces are random, only semantics are compared",
-			"invite links are assumed to have been handed to EVERY pool account: each invite private key is tried on every blob for every non-member; generations that an anyone-can-join invite exposes by design (all generations introduced while that invite was live, and through the chain all earlier ones) are not held against its holders — only generations introduced at/after the revoke are",
-			"a non-member's own private key is tried on every encrypted-read-key blob of the log, whatever recipient the record names",
+			"pool of 5 accounts (owner O, admin A, members P and Q, outsider X), at most 2 invites per history; builder timestamps, keys and nonces are random, only semantics are compared (counts are identical between runs)",
+			"invite links are assumed to have been handed to EVERY pool account: each invite private key is tried on every blob for every non-member; generations that an anyone-can-join invite exposes by design (every generation introduced before that invite's revoke record: through InviteKeys while it is live and through the backward chain for older ones) are not held against its holders, generations introduced by the revoking record itself or later are",
+			"a non-member's own private key is tried on every encrypted-read-key blob of the log, whatever recipient the record names; with its own key alone it must derive NO generation introduced at or after its last loss of permission (none at all if never admitted), whatever invites are live",
+			"only read keys are compared (metadata keys are not part of the statement); a non-member failing to build its list is counted, not judged; tree ciphertext may be under the named generation's key or its per-tree derivation, and must not open under any other generation's",
+			"the readers' trees and the writers' trees on BFS paths use a plain in-memory objecttree.Storage written for this check (it keeps exactly the bytes the tree hands to its storage); the stored-bytes claims on real any-store files are judged along the scripted and seed histories (generation counts 1..7)",
 		},
 		Budget: func(tier string) time.Duration {
 			if tier == "quick" {
-				return 75 * time.Second
+				return 80 * time.Second
 			}
 			return 18 * time.Minute
 		},
